@@ -52,8 +52,9 @@ def get_qbitstensor_op_dispatch(aten_op):
 def _to_copy(op, t, dtype=None, device=None, **kwargs):
     if dtype is not None and dtype != t.dtype:
         raise ValueError("The dtype of a QBitsTensor cannot be changed")
-    if type(t) != QBitsTensor and t.device.type != device.type:
-        # Before moving to another device type, convert back to a QBitsTensor
+    if type(t) != QBitsTensor and (device is None or t.device.type != device.type):
+        # Before moving to another device type (or copying on the same one), convert back to a QBitsTensor:
+        # the best subclass for the target device is selected again below
         t = t.qbits_tensor()
     scale = op(t._scale, dtype=dtype, device=device, **kwargs)
     data = op(t._data, device=device, **kwargs)
@@ -73,6 +74,9 @@ def detach(op, t):
 @register_qbitstensor_op([torch.ops.aten.clone])
 def clone(op, t, memory_format=torch.preserve_format):
     # Clone is required to copy a module: the packed data are unpacked by the clone and packed again on creation
+    if type(t) != QBitsTensor:
+        # An optimized subclass stores its scales and zero-points in its own format: convert it back first
+        t = t.qbits_tensor()
     data = op(t._data, memory_format=memory_format)
     scale = op(t._scale, memory_format=memory_format)
     zeropoint = op(t._zeropoint, memory_format=memory_format)
